@@ -1,6 +1,5 @@
 """Shared by C08 and C03 (placement part): robust runs of `vh c08 cases|oracle|one` (a hang / abort of the implementation
-must not kill the check), the K comparison against Model/PlacementRun.v, classification of failures against
-known_findings.json."""
+must not kill the check) and the K comparison against Model/PlacementRun.v."""
 import os
 import select
 import subprocess
@@ -54,13 +53,13 @@ def run_stream(cmd, idle_timeout=3.0, total_timeout=120.0):
     return buf.decode(errors='replace').split('\n'), status
 
 
-def gen_cases(binp, seed, n, family, max_deaths=4):
+def gen_cases(binp, seed, n, max_deaths=4):
     """`vh c08 cases`: returns (cases, impl, deaths) where a case whose run killed / hung the process is recorded with the
     implementation result [0] (same marker as a caught panic) and listed in deaths."""
     cases, impl, deaths = [], [], []
     start = 0
     while start < n:
-        lines, status = run_stream('%s c08 cases %d %d %d %d' % (binp, seed, n - start, start, family), idle_timeout=3.0)
+        lines, status = run_stream('%s c08 cases %d %d %d' % (binp, seed, n - start, start), idle_timeout=3.0)
         k = 0
         pending = None
         for line in lines:
@@ -87,13 +86,13 @@ def gen_cases(binp, seed, n, family, max_deaths=4):
     return cases, impl, deaths
 
 
-def run_oracle(binp, seed, n, family, max_fail=6):
+def run_oracle(binp, seed, n, max_fail=6):
     """`vh c08 oracle`: returns (evaluated, failures) with failures = [{'idx', 'case', 'msg'}] (a death after START i is a failure of i)."""
     fails = []
     start = 0
     done = 0
     while start < n and len(fails) < max_fail:
-        lines, status = run_stream('%s c08 oracle %d %d %d %d' % (binp, seed, n - start, start, family), idle_timeout=3.0, total_timeout=300)
+        lines, status = run_stream('%s c08 oracle %d %d %d' % (binp, seed, n - start, start), idle_timeout=3.0, total_timeout=300)
         cur = None
         last_idx = start - 1
         for line in lines:
@@ -149,16 +148,6 @@ def decode(ints):
     return {'ec': ints[0], 'er': ints[1], 'flow': ints[2], 'children': ch}
 
 
-def zero_line_span(ints):
-    """line 0 together with span >= 2 in one axis of some child (known finding estimate-zero-line-span)"""
-    for kind, p in decode(ints)['children']:
-        for ax in range(2):
-            a, b = p[2 * ax], p[2 * ax + 1]
-            if (a == (1, 0) and b[0] == 2 and b[1] >= 2) or (b == (1, 0) and a[0] == 2 and a[1] >= 2):
-                return True
-    return False
-
-
 FLOWS = ['row', 'column', 'row dense', 'column dense']
 
 
@@ -173,13 +162,6 @@ def describe(ints):
     return 'grid %d cols x %d rows, auto-flow %s, children: %s' % (d['ec'], d['er'], FLOWS[d['flow']], ', '.join(kids))
 
 
-def known_zero_line_span():
-    for f in known_findings('C03'):
-        if f.get('id') == 'estimate-zero-line-span' and f.get('status') == 'known':
-            return f
-    return None
-
-
 def model_eval(tag, cases):
     with Lock('coq'):
         rcm, outm, _ = coq_make(['Model/PlacementRun.vo'])
@@ -189,7 +171,7 @@ def model_eval(tag, cases):
 
 
 def correspondence(rep, pid, tier, seed, changed, replay=None):
-    """K: release run (family 0) + debug run (family 1: overflow checks on, includes the known hang class).
+    """K: release run + debug run (overflow checks on: a model Err must be a panic there).
     Returns (release binary or None, list of (case, impl, model) disagreements, deaths)."""
     rc, out, binp, dt = build_harness('release')
     if rc != 0:
@@ -205,7 +187,7 @@ def correspondence(rep, pid, tier, seed, changed, replay=None):
             r, _ = run_one(binp, replay['case'])
             cases, impl, deaths = [replay['case']], [r], []
         else:
-            cases, impl, deaths = gen_cases(binp, seed, n, 0)
+            cases, impl, deaths = gen_cases(binp, seed, n)
         model = model_eval(pid, cases)
         bad = diff_results(rep, 'grid placement via detailed_layout_info (release build) vs Model.Placement.grid_placement_run', cases, impl, model)
         bad_all += bad
@@ -218,7 +200,7 @@ def correspondence(rep, pid, tier, seed, changed, replay=None):
             if rcd != 0:
                 rep.add_broken('build', 'harness (debug)', outd[-1500:])
             else:
-                cases_d, impl_d, deaths_d = gen_cases(binpd, seed + 1, nd, 1)
+                cases_d, impl_d, deaths_d = gen_cases(binpd, seed + 1, nd)
                 model_d = model_eval(pid + 'd', cases_d)
                 bad_d = diff_results(rep, 'grid placement (debug build, overflow checks on: model Err <-> panic) vs Model.Placement.grid_placement_run',
                                      cases_d, impl_d, model_d)
@@ -267,7 +249,7 @@ def coverage(rep, cases, impl):
             nontrivial += 1
     rep.cov['distinct_nontrivial'] = nontrivial
     rep.cov['rule'] = ('a case = (explicit column count, explicit row count, auto-flow, children with kind in-flow/display:none/absolute and '
-                       '4 placements auto | line l | span s); generated from one PRNG stream: 2/3 random (1-7 children, explicit 0-4, lines '
+                       '4 placements auto | line l | span s); first the regression corpus of the repaired defects, then one PRNG stream: 2/3 random (1-7 children, explicit 0-4, lines '
                        '-5..5 incl 0, spans 1-3, per-case definiteness profile), 1/3 drawn from the exhaustive family (1-2 children x 13^4 '
                        'placement combinations x explicit {0,1,3}^2 x 4 flows); counted: distinct cases that have a non-auto placement on an '
                        'in-flow child or at least two in-flow children (so that placement has something to decide)')
